@@ -8,7 +8,7 @@ from openapi_python_client.parser.properties import EnumProperty, LiteralEnumPro
 
 CFG = Config.from_sources(ConfigFile(post_hooks=[]), MetaType.NONE, Path("doc.json"), "utf-8", True, None)
 CFG_LIT = Config.from_sources(ConfigFile(post_hooks=[], literal_enums=True), MetaType.NONE, Path("doc.json"), "utf-8", True, None)
-VALUES = ("a", "A", "a b", "a-b", "a_b", "1", "", "²", "b", "VALUE_0")
+VALUES = ("a", "A", "a b", "a-b", "a_b", "1", "", "²", "b", "VALUE_0", "value_1")
 # known-finding class C06-F1 / C14-F1: two values whose derived member key coincides before sanitising (raises
 # ValueError) or after it (silently merged)
 
@@ -42,7 +42,7 @@ def _keys_collide(vals) -> bool:
 
 def enum_build_no_raise(n: int, v0: int, v1: int) -> bool:
     """
-    pre: 1 <= n <= 2 and 0 <= v0 < 10 and 0 <= v1 < 10 and v0 != v1
+    pre: 1 <= n <= 2 and 0 <= v0 < 11 and 0 <= v1 < 11 and v0 != v1
     post: _
     """
     vals = [_pick(VALUES, v0), _pick(VALUES, v1)][:n]
@@ -54,7 +54,7 @@ def enum_build_no_raise(n: int, v0: int, v1: int) -> bool:
 
 def enum_build_no_raise__excl(n: int, v0: int, v1: int) -> bool:
     """
-    pre: 1 <= n <= 2 and 0 <= v0 < 10 and 0 <= v1 < 10 and v0 != v1
+    pre: 1 <= n <= 2 and 0 <= v0 < 11 and 0 <= v1 < 11 and v0 != v1
     post: _
     """
     vals = [_pick(VALUES, v0), _pick(VALUES, v1)][:n]
@@ -70,9 +70,39 @@ def enum_build_no_raise__excl(n: int, v0: int, v1: int) -> bool:
     return stored == sorted(_ESC[v] for v in vals)
 
 
+def _raw_key(v: str, i: int) -> str:
+    return v.upper() if v and v[0].isalpha() else f"VALUE_{i}"
+
+
+def enum_raw_key_collision_is_reported(v0: int, v1: int) -> bool:
+    """
+    Two listed values whose member names coincide already before sanitising ('a' / 'A', or a value that spells the
+    positional name of a later one: 'value_1' followed by '1') are never merged into one member: the builder does not
+    hand back a property.  (That it raises ValueError instead of returning a diagnostic is finding C06-F1, recorded
+    separately; a *silent* merge of these would be a different, unrecorded violation.)
+    pre: 0 <= v0 < 11 and 0 <= v1 < 11 and v0 != v1
+    post: _
+    """
+    vals = [_pick(VALUES, v0), _pick(VALUES, v1)]
+    collide = False
+    for (a, i) in ((v0, 0),):
+        for (b, j) in ((v1, 1),):
+            for k in range(len(VALUES)):
+                for m in range(len(VALUES)):
+                    if a == k and b == m and _raw_key(VALUES[k], i) == _raw_key(VALUES[m], j):
+                        collide = True
+    if not collide:
+        return True
+    try:
+        prop, _ = EnumProperty.build(data=_schema(vals), name="e", required=True, schemas=Schemas(), parent_name="P", config=CFG)
+    except ValueError:
+        return True
+    return isinstance(prop, PropertyError)
+
+
 def literal_enum_build_no_raise(n: int, v0: int, v1: int) -> bool:
     """
-    pre: 1 <= n <= 2 and 0 <= v0 < 10 and 0 <= v1 < 10 and v0 != v1
+    pre: 1 <= n <= 2 and 0 <= v0 < 11 and 0 <= v1 < 11 and v0 != v1
     post: _
     """
     vals = [_pick(VALUES, v0), _pick(VALUES, v1)][:n]
